@@ -80,6 +80,12 @@ func (e *jmErr) String() string               { return "own string" }
 
 type leafErr struct{ msg string }
 
+// nilSafeErr: used as a TYPED NIL error value (its methods tolerate the nil receiver); all nil values of
+// the type are one value, so a program holds at most one such leaf
+type nilSafeErr struct{ _ int }
+
+func (e *nilSafeErr) Error() string { return "typed nil" }
+
 func (e *leafErr) Error() string { return e.msg }
 
 // custom presenter ids (Formatter / JSONMarshaler / LogValuer options)
@@ -452,6 +458,9 @@ func (w *world) exec(s PStmt) (panicked any) {
 			e = errors.New(s.Msg)
 		} else if s.Ty == "jm" {
 			e = &jmErr{msg: s.Msg}
+		} else if s.Ty == "typednil" {
+			e = (*nilSafeErr)(nil)
+			s.Msg = e.Error()
 		} else {
 			e = &leafErr{msg: s.Msg}
 		}
@@ -656,6 +665,10 @@ func genProg(r *Rng, cfg p1Cfg) []PStmt {
 		return ip(r.Intn(n))
 	}
 	errList := func() []*int {
+		if nerrs >= 2 && r.Chance(1, 8) {
+			// nil arguments between and around two causes
+			return []*int{ip(r.Intn(nerrs)), nil, ip(r.Intn(nerrs))}
+		}
 		k := r.Intn(4)
 		var out []*int
 		for i := 0; i < k; i++ {
